@@ -102,3 +102,101 @@ def fold_check(formulas, timeout_ms):
         if r != z3.unsat:
             res = z3.unknown
     return res
+
+
+class Abstractor:
+    """Over-approximating abstraction used for path FEASIBILITY only: string/sequence atoms become
+    free booleans and Length(t) a free non-negative integer, so the check is plain LIA+UF+arrays.
+    unsat of the abstraction implies unsat of the original (paths are never wrongly pruned);
+    a sat answer may keep a path whose condition is really unsatisfiable - its obligations then
+    hold vacuously and are discharged by the full query."""
+    def __init__(self):
+        self.cache = {}
+        self.side = []
+
+    def is_seqish(self, srt):
+        k = srt.kind()
+        if k == z3.Z3_SEQ_SORT or k == z3.Z3_RE_SORT:
+            return True
+        if k == z3.Z3_ARRAY_SORT:
+            return self.is_seqish(srt.range()) or self.is_seqish(srt.domain())
+        return False
+
+    def has_seq(self, t, memo):
+        k = t.get_id()
+        if k in memo:
+            return memo[k]
+        r = self.is_seqish(t.sort()) or any(self.has_seq(c, memo) for c in t.children())
+        memo[k] = r
+        return r
+
+    def abs(self, t, memo=None):
+        memo = {} if memo is None else memo
+        k = t.get_id()
+        if k in self.cache and self.cache[k][0].eq(t):
+            return self.cache[k][1]
+        if not self.has_seq(t, memo):
+            r = t
+        elif z3.is_bool(t) and z3.is_app(t) and t.decl().kind() in (z3.Z3_OP_AND, z3.Z3_OP_OR, z3.Z3_OP_NOT, z3.Z3_OP_IMPLIES, z3.Z3_OP_ITE, z3.Z3_OP_XOR) or \
+                (z3.is_bool(t) and z3.is_app(t) and t.decl().kind() in (z3.Z3_OP_EQ, z3.Z3_OP_DISTINCT) and not self.is_seqish(t.arg(0).sort())) or \
+                (z3.is_app(t) and not self.is_seqish(t.sort()) and t.decl().kind() in (z3.Z3_OP_LE, z3.Z3_OP_GE, z3.Z3_OP_LT, z3.Z3_OP_GT, z3.Z3_OP_ADD, z3.Z3_OP_SUB, z3.Z3_OP_MUL, z3.Z3_OP_UMINUS, z3.Z3_OP_MOD, z3.Z3_OP_IDIV, z3.Z3_OP_ITE)):
+            ch = [self.abs(c, memo) for c in t.children()]
+            r = t.decl()(*ch)
+        elif z3.is_app(t) and t.decl().kind() == z3.Z3_OP_SEQ_LENGTH:
+            r = z3.Const('absLen!%d' % k, z3.IntSort())
+            self.side.append(r >= 0)
+        elif z3.is_bool(t):
+            r = z3.Const('absB!%d' % k, z3.BoolSort())
+        elif t.sort() == z3.IntSort():
+            r = z3.Const('absI!%d' % k, z3.IntSort())
+        else:
+            r = z3.Const('absX!%d' % k, t.sort()) if not self.is_seqish(t.sort()) else t
+        self.cache[k] = (t, r)        # keeping t alive keeps its id from being recycled
+        return r
+
+
+def deselect(formulas):
+    """Replace every Select on a base (uninterpreted constant) array by a fresh constant, adding the
+    functional-consistency (Ackermann) clauses  i == j  =>  a[i] == a[j].  Equisatisfiable for the
+    select-only fragment; formulas that still contain stores keep their array terms.  z3's sequence
+    solver is much more complete without string-valued arrays in the query."""
+    sels = {}
+
+    def walk(t, seen):
+        if t.get_id() in seen or not z3.is_app(t):
+            return
+        seen.add(t.get_id())
+        for c in t.children():
+            walk(c, seen)
+        if t.decl().kind() == z3.Z3_OP_SELECT and z3.is_const(t.arg(0)) and t.arg(0).decl().kind() == z3.Z3_OP_UNINTERPRETED:
+            sels[t.get_id()] = t
+    seen = set()
+    for f in formulas:
+        walk(f, seen)
+    if not sels:
+        return formulas
+    order = sorted(sels.values(), key=lambda t: len(t.sexpr()))      # inner selects first
+    pairs = []
+    done = []
+    for i, t in enumerate(order):
+        t2 = z3.substitute(t, *pairs) if pairs else t              # indices already abstracted
+        c = z3.Const('sel!%d' % i, t.sort())
+        pairs.append((t, c))
+        done.append((t.arg(0), z3.substitute(t.arg(1), *pairs[:-1]) if pairs[:-1] else t.arg(1), c))
+    out = [z3.substitute(f, *reversed(pairs)) if False else _subst_all(f, pairs) for f in formulas]
+    by_arr = {}
+    for arr, idx, c in done:
+        by_arr.setdefault(arr.get_id(), []).append((idx, c))
+    for lst in by_arr.values():
+        for a in range(len(lst)):
+            for b in range(a + 1, len(lst)):
+                if not lst[a][0].eq(lst[b][0]):
+                    out.append(z3.Implies(lst[a][0] == lst[b][0], lst[a][1] == lst[b][1]))
+    return out
+
+
+def _subst_all(f, pairs):
+    # largest terms first so that outer selects are replaced before their inner parts change
+    for a, b in reversed(pairs):
+        f = z3.substitute(f, (a, b))
+    return f
